@@ -110,7 +110,7 @@ def run_case(case):
             if len(reply) > 400 and plan.split_mode == "bytes1":
                 plan.split_mode = "random"
             dest = io.BytesIO()
-            cb = (lambda p, n, t: None) if rng.random() < 0.3 else None
+            cb = scen.make_callback(case["impl"], "ok", []) if rng.random() < 0.3 else None
             plan.stats[b"/gone"] = (0o100644, size, 3)
             out = sess.call("pull", "/gone", dest, progress_callback=cb)
             stats["pull_fails"] += 1
